@@ -77,7 +77,7 @@ add("C12", "proptest-sharded+hooks",
 
 add("C19", "proptest-sharded+real-CLI",
     "property-based testing: metamorphic score-delta relation for replace_dictionary and a dump/replace round trip through the real manipulate_model binary",
-    "Generated models x replacement dictionaries x texts for the library relation (score delta == RefDict(new) - RefDict(old), nothing else changes); generated CSV-hostile dictionaries through the real tool: dump -> replace with untouched CSV -> byte-identical model; wrong weight counts rejected.",
+    "Generated models x replacement dictionaries x texts for the library relation (score delta == RefDict(new) - RefDict(old), nothing else changes); generated CSV-hostile dictionaries through the real tool: dump -> replace with untouched CSV -> byte-identical model; wrong weight counts rejected; dump and replacement in one invocation.",
     "The tool is rebuilt from /repo into /verif/target/repo-bins by the check script; csv and zstd crates are part of the tool under test.")
 add("C20", "proptest-sharded+real-CLI",
     "property-based testing: reference output assembled from library calls vs the real predict/evaluate binaries over generated models, input streams and flag sets; metamorphic mode equivalence",
